@@ -30,6 +30,7 @@ import (
 	"example.com/scion-time/core/client"
 	"example.com/scion-time/core/measurements"
 	"example.com/scion-time/core/sync"
+	"example.com/scion-time/driver/clocks"
 
 	"verifharness/lib"
 )
@@ -319,6 +320,11 @@ func execInProcess(t []string) string {
 		return fmt.Sprintf("ok %d", timemath.Sgn(time.Duration(i64(t[1]))))
 	case t[0] == "dur.abs" && len(t) == 2:
 		return fmt.Sprintf("ok %d", int64(time.Duration(i64(t[1])).Abs()))
+	case t[0] == "clk.drift" && len(t) == 3:
+		// the clock timeservice.go builds for Run (clocks.NewSystemClock(log, clockDrift(cfg))) and the
+		// one reading Run takes from it: clk.Drift(cfg.SyncInterval)
+		clk := clocks.NewSystemClock(quietLog, time.Duration(i64(t[1])))
+		return fmt.Sprintf("ok %d", int64(clk.Drift(time.Duration(i64(t[2])))))
 	case t[0] == "ftm" && len(t) == 2:
 		if len(t[1]) < 2 || t[1][0] != '[' || t[1][len(t[1])-1] != ']' {
 			return "bad-op"
@@ -949,6 +955,67 @@ func gen(c *lib.Ctx) {
 			}
 		}
 		c.Dof("ftm %s", lib.IntList(xs))
+	}
+
+
+	// ---- the drift chain: clock_drift (ns per second, after clockDrift(cfg)) -> NewSystemClock ->
+	// Drift(SyncInterval) = the factor of both caps. Oracle (math/big, C01Cfg_runDrift_*): absent
+	// drift gives MaxInt64; a configured drift of 1 ns/s .. 0.4 s/s whose exact allowance
+	// d*iv/1e9 is at least 2 ns gives a positive value within 1 ns + 2^-50 of it.
+	c.Comment("drift chain")
+	dr := r.Fork("drift")
+	dvals := []int64{0, 1, 2, 3, 14, 15, 16, 29, 30, 1000, 10_000, 1_000_000, 399_999_999, 400_000_000, 500_000_000, 999_999_999, 1_000_000_000, 1_000_000_001, math.MaxInt64, -1, -10_000, math.MinInt64}
+	ivals := []int64{1, 2, 499_999_999, 500_000_000, 999_999_999, 1_000_000_000, 1_000_000_001, 2_000_000_000, 64_000_000_000, 3_600_000_000_000, math.MaxInt64, 0, -1, -1_000_000_000, math.MinInt64}
+	driftOp := func(d, iv int64) {
+		ans := c.Dof("clk.drift %d %d", d, iv)
+		xs, ok := lib.Ints(ans)
+		if !ok || len(xs) != 1 {
+			return
+		}
+		got := xs[0]
+		if d == 0 {
+			c.Count("drift:unknown")
+			if got != math.MaxInt64 {
+				c.Fail("C01:drift-unknown", "an absent clock_drift must give the maximal allowance", []string{fmt.Sprintf("clk.drift %d %d", d, iv)}, map[string]any{"got": got})
+			}
+			return
+		}
+		if d < 1 || d > 400_000_000 || iv <= 0 {
+			c.Count("drift:outside-oracle-range")
+			return
+		}
+		exact := new(big.Rat).SetFrac(new(big.Int).Mul(big.NewInt(d), big.NewInt(iv)), big.NewInt(1_000_000_000))
+		if exact.Cmp(big.NewRat(2, 1)) < 0 {
+			c.Count("drift:allowance<2ns")
+			return
+		}
+		c.Count("drift:checked")
+		diff := new(big.Rat).Sub(new(big.Rat).SetInt64(got), exact)
+		diff.Abs(diff)
+		lim := new(big.Rat).Add(big.NewRat(1, 1), new(big.Rat).Quo(exact, new(big.Rat).SetInt(new(big.Int).Lsh(big.NewInt(1), 50))))
+		if got <= 0 || diff.Cmp(lim) > 0 {
+			c.Fail("C01:drift-allowance", "Drift(interval) of the configured clock is not positive / not within 1 ns + 2^-50 of drift x interval",
+				[]string{fmt.Sprintf("clk.drift %d %d", d, iv)}, map[string]any{"got": got, "exact": exact.FloatString(3)})
+		}
+	}
+	for _, d := range dvals {
+		for _, iv := range ivals {
+			driftOp(d, iv)
+		}
+	}
+	for i := 0; i < c.Scale(1500, 30000); i++ {
+		d := dr.Range(1, 400_000_000)
+		if dr.Chance(50) {
+			d = dr.Range(1, 200_000)
+		}
+		iv := dr.Range(1, 100_000_000_000)
+		switch dr.Intn(4) {
+		case 0:
+			iv = 1_000_000_000
+		case 1:
+			iv = dr.Range(1, 20) * 500_000_000
+		}
+		driftOp(d, iv)
 	}
 
 	// ---- start-up: both sides of every admissibility comparison, NaN/Inf factors
